@@ -322,6 +322,31 @@ func Record(world, out string, seed int64, n int) (*Report, error) {
 	return rep, f.Close()
 }
 
+// RunTrace: when VERIF_RUN_TRACE names a file, the events of a re-executed run are written there in the recorder's
+// format, so that the orchestrator can put them through the TLA+ monitor again (replay of a monitor finding).
+func RunTrace(world string) (emit func(k string, f any), done func()) {
+	path := os.Getenv("VERIF_RUN_TRACE")
+	if path == "" {
+		return nil, func() {}
+	}
+	f, err := os.OpenFile(path, os.O_CREATE|os.O_WRONLY|os.O_APPEND, 0644)
+	if err != nil {
+		return nil, func() {}
+	}
+	bw := bufio.NewWriter(f)
+	enc := json.NewEncoder(bw)
+	enc.SetEscapeHTML(false)
+	var mu sync.Mutex
+	return func(k string, in any) {
+			mu.Lock()
+			defer mu.Unlock()
+			enc.Encode(&Case{W: world, K: k, In: marshalNoNull(in), Obs: marshalNoNull(map[string]any{})})
+		}, func() {
+			bw.Flush()
+			f.Close()
+		}
+}
+
 // Eq compares two JSON-able values structurally after a JSON round trip.
 func Eq(a, b any) bool {
 	return reflect.DeepEqual(norm(a), norm(b))
